@@ -7,6 +7,7 @@ import (
 
 	ipfslog "berty.tech/go-ipfs-log"
 	"berty.tech/go-ipfs-log/iface"
+	"github.com/ipfs/go-cid"
 
 	"verifharness/evid"
 	"verifharness/hx"
@@ -58,6 +59,25 @@ func c15AfterQueries(run *evid.Run, h *hx.History, l *ipfslog.IPFSLog, r int, si
 		return
 	}
 	run.Count("writers_after_queries", 1)
+	// (1b) an entry that only a CLONE of this log holds (opened from this log's entries and heads, then appended
+	// to) is an unknown bound for this log
+	{
+		lo := &ipfslog.LogOptions{ID: l.GetID(), Entries: l.GetEntries(), Heads: l.Heads().Slice(), SortFn: l.SortFn, IO: l.IO()}
+		if clone, err := ipfslog.NewLog(l.Storage, l.Identity, lo); err == nil {
+			if ce, err := clone.Append(hxCtx, []byte(fmt.Sprintf("%d.%d/clone-%d", h.Seed, h.Idx, r)), nil); err == nil {
+				for _, opt := range []*iface.IteratorOptions{{LTE: []cid.Cid{ce.GetHash()}}, {LT: []cid.Cid{ce.GetHash()}}} {
+					ch := make(chan iface.IPFSLogEntry, 2*size+32)
+					var ierr error
+					if p := safely(func() { ierr = l.Iterator(opt, ch) }); p != nil {
+						run.Violate("C15/panic", det("upper", "entry of a clone"), wit(), "Iterator panicked for a bound held only by a clone: %v", p)
+					} else if ierr == nil {
+						run.Violate("C15/unknown-bound-no-error", det("upper", "entry of a clone"), wit(), "an entry appended to a clone of the log (NewLog from its entries and heads) was accepted as an upper bound by the original, which does not hold it")
+					}
+					run.Count("bounds_held_only_by_a_clone", 1)
+				}
+			}
+		}
+	}
 	// (2)
 	if size < 3 {
 		return
